@@ -196,7 +196,11 @@ func execThread(s *mapz.SafeKV[int, int], th int, calls []call, rec *recorder) {
 
 func newKV(c kvCase) *mapz.SafeKV[int, int] {
 	conc.Reset()
-	s := mapz.NewSafeKV[int, int](2)
+	capHint := 2
+	if len(c.Initial) == 0 {
+		capHint = 0 // nothing allocated up front by the caller: the first writes of the program are the first writes ever
+	}
+	s := mapz.NewSafeKV[int, int](capHint)
 	for k, v := range c.Initial {
 		s.Set(k, v)
 	}
